@@ -204,10 +204,17 @@ def run(ctx):
         ctx.log(f"tie broken; oracle search on the implementation found a failing input: {found}")
         return C.finish(ctx)
 
+    def nan_blind(t):
+        # `Debug` of an f32 NaN is `NaN` whatever the payload: the model's bits are compared as "some NaN"
+        def f(m):
+            bits = int(m.group(1))
+            return "Float{0=NaN}" if (bits & 0x7f800000) == 0x7f800000 and (bits & 0x007fffff) else m.group(0)
+        return re.sub(r"Float\{0=(\d+)\}", f, t)
+
     def equal(a, b):
         if a.startswith("ok "):
             try:
-                return canon.module(a) == b
+                return canon.module(a) == nan_blind(b)
             except (ValueError, KeyError, IndexError):
                 return False
         return C.canon(a.strip()) == C.canon(b.strip())
